@@ -17,7 +17,8 @@ Decided statically: no block reader can observe anything left behind by an earli
 import ast
 
 from .. import blockproto
-from ..domains import AbsStr
+from ..domains import AbsStr, _AbsBound
+from ..interp import AbstractValue, Interp, Unknown, Raised, LoopTruncated, enumerate_paths, MISSING
 from ..model import AnalysisError, ClassInfo, FuncInfo, loc, walk_function, PKG
 from ..report import load_audit
 
@@ -124,41 +125,35 @@ def rule_no_reentry(ctx, rep):
     rep.rule(rule, 'nothing between a successful start() and the end of read() re-enters the same start()')
     tb = model.func('block_tokenizer.tokenize_block')
     unit = model.unit_of(tb)
-    # dispatch loop: if token_type.start(line): ... token_type.read(lines)
-    found = False
-    for n in walk_function(tb.node):
-        if isinstance(n, ast.If) and isinstance(n.test, ast.Call) and isinstance(n.test.func, ast.Attribute) \
-                and n.test.func.attr == 'start':
-            found = True
-            rep.instance(rule)
-            between = []
-            read_seen = False
-            for st in n.body:
-                calls = [c for c in ast.walk(st) if isinstance(c, ast.Call)]
-                for c in calls:
-                    if isinstance(c.func, ast.Attribute) and c.func.attr == 'read' and not read_seen:
-                        read_seen = True
-                        break
-                    if not read_seen:
-                        between.append(c)
-                if read_seen:
-                    break
-            if not read_seen:
-                rep.find(rule, 'block_tokenizer.tokenize_block', 'read-after-start',
-                         'the dispatch loop does not call read() in the branch guarded by start()', loc(unit, n))
-            starts = {f.qualname for f in cg.by_name.get('start', []) if f.cls is not None}
-            for c in between:
-                site = [s for s in cg.sites if s.node is c]
-                callees = site[0].callees if site else []
-                reach = cg.reachable(callees)
+    # dispatch: on every simulated path, a successful start(i) is followed at once by read(i), and nothing
+    # executed in between can reach a block token's start()
+    starts = {f.qualname for f in cg.by_name.get('start', []) if f.cls is not None}
+    runs = simulate_dispatch(ctx)
+    seen_pairs = 0
+    problems = {}
+    for log in runs:
+        ev = log['events']
+        for i, e in enumerate(ev):
+            if e[0] == 'start' and e[3]:
+                seen_pairs += 1
+                nxt = ev[i + 1] if i + 1 < len(ev) else None
+                if nxt is None or nxt[0] != 'read' or nxt[1] != e[1]:
+                    problems.setdefault('read-after-start', 'a successful start() of token type %d is followed by %s instead '
+                                        'of read() of the same type' % (e[1], nxt[:2] if nxt else 'nothing'))
+                    continue
+                between = log['calls'][e[4]:nxt[4]]
+                reach = cg.reachable([c for _, c in between])
                 bad = sorted(starts & set(reach))
-                ok = not bad
-                rep.obligation(rule, ok, {'site': 'tokenize_block', 'call': ast.unparse(c), 'reaches_start': bad})
-                if not ok:
-                    rep.find(rule, 'block_tokenizer.tokenize_block', 'call-between-start-and-read:%s' % ast.unparse(c.func),
-                             'a call between start() and read() can reach %s and overwrite scratch state' % bad, loc(unit, c))
-    if not found:
-        raise AnalysisError('tokenize_block: dispatch "if token_type.start(line)" not found')
+                if bad:
+                    problems.setdefault('call-between-start-and-read:%s' % between[0][1].short,
+                                        'a call between start() and read() can reach %s and overwrite scratch state' % bad)
+    rep.instance(rule)
+    if not seen_pairs:
+        raise AnalysisError('tokenize_block: simulated dispatch never saw a successful start()')
+    rep.obligation(rule, not problems, {'site': 'tokenize_block (simulated with abstract token types)', 'paths': len(runs),
+                                        'start->read pairs': seen_pairs, 'problems': sorted(problems)})
+    for k, msg in sorted(problems.items()):
+        rep.find(rule, 'block_tokenizer.tokenize_block', k, msg, loc(unit, tb.node))
     # inside read(): K.read must not reach K.start while it still reads scratch
     for cls in blockproto.block_classes(model, ctx.configs()):
         written = scratch_attrs(model, cls)
@@ -180,6 +175,27 @@ def rule_no_reentry(ctx, rep):
                      loc(model.unit_of(read), read.node))
 
 
+def cursor_fields_of(fw):
+    """Fields of FileWrapper that its methods other than __init__ assign: the mutable cursor state."""
+    out = set()
+    for name, m in fw.methods.items():
+        if name == '__init__' or not m.params():
+            continue
+        s0 = m.params()[0]
+        for n in walk_function(m.node):
+            if isinstance(n, ast.Attribute) and isinstance(n.ctx, ast.Store) and isinstance(n.value, ast.Name) and n.value.id == s0:
+                out.add(n.attr)
+    return out
+
+
+def _may_be_wrapper(model, fi, expr):
+    """Could this receiver expression denote a FileWrapper? (not `self` of an unrelated class)"""
+    if isinstance(expr, ast.Name) and fi.cls is not None and fi.params() and expr.id == fi.params()[0] \
+            and fi.kind in ('method', 'property'):
+        return False
+    return True
+
+
 def rule_cursor_local(ctx, rep):
     model = ctx.model
     rule = 'R-CURSOR-LOCAL'
@@ -187,14 +203,22 @@ def rule_cursor_local(ctx, rep):
     fw = model.cls('block_tokenizer.FileWrapper')
     audit = load_audit('c05')
     n_sites = 0
+    cursor_fields = cursor_fields_of(fw)
+    if not cursor_fields:
+        raise AnalysisError('FileWrapper has no field that its methods update (cursor not found)')
+    renamed = dict(zip(sorted(cursor_fields), sorted(CURSOR_FIELDS))) if len(cursor_fields) == len(CURSOR_FIELDS) else {}
     for fi in model.functions.values():
         if fi.cls is fw:
             continue
         unit = model.unit_of(fi)
         for n in walk_function(fi.node):
-            if isinstance(n, ast.Attribute) and n.attr in CURSOR_FIELDS:
+            if isinstance(n, ast.Attribute) and n.attr in cursor_fields and _may_be_wrapper(model, fi, n.value):
                 n_sites += 1
-                key = 'C05/%s/%s/%s' % (rule, fi.short, ast.unparse(n))
+                # audited accesses are keyed by the field's name in the reviewed tree
+                txt = ast.unparse(n)
+                key = 'C05/%s/%s/%s' % (rule, fi.short, txt)
+                if key not in audit and n.attr in renamed:
+                    key = 'C05/%s/%s/%s' % (rule, fi.short, txt[:-len(n.attr)] + renamed[n.attr])
                 ok = key in audit
                 if ok:
                     rep.audit_used.append({'key': key, 'reason': audit[key]['reason']})
@@ -221,47 +245,165 @@ def rule_cursor_local(ctx, rep):
                              'set_pos is given a value that is not the result of get_pos() on the same cursor in the same '
                              'activation: the reader could move before its own first line', loc(unit, n))
     rep.floor(rule, n_sites, 3)
-    # backstep keeps its floor
+    # backstep keeps its floor: decided by running FileWrapper's own methods on a two-line wrapper
     bs = model.method('block_tokenizer.FileWrapper', 'backstep')
     rep.instance(rule)
-    ok = False
-    for n in walk_function(bs.node):
-        if isinstance(n, ast.If):
-            t = ast.unparse(n.test).replace(' ', '')
-            if t in ('self._index!=-1', 'self._index>-1', 'self._index>=0', '-1!=self._index', 'self._index+1>0'):
-                if any(isinstance(x, ast.AugAssign) and isinstance(x.op, ast.Sub) for x in n.body):
-                    ok = True
-    decs = [x for x in walk_function(bs.node) if isinstance(x, ast.AugAssign)]
-    guarded = all(any(x in ast.walk(i) for i in walk_function(bs.node) if isinstance(i, ast.If)) for x in decs)
-    ok = ok and guarded
-    rep.obligation(rule, ok, {'FileWrapper.backstep': 'decrement guarded by _index != -1'})
+    it = Interp(model)
+    from ..interp import Oracle
+    it.reset_run(Oracle())
+    lines = [AbsStr(label='line0'), AbsStr(label='line1')]
+    w = it.construct(fw, [lines], {})
+
+    def state():
+        return {k: v for k, v in w.attrs.items() if k in cursor_fields}
+    problems = []
+    try:
+        s0 = state()
+        it.call(it.getattr(w, 'backstep'), [], {})
+        if state() != s0 or it.call(it.getattr(w, 'peek'), [], {}) is not lines[0]:
+            problems.append('backstep() before the first line moves the cursor below its initial position')
+        it.call(it.getattr(w, '__next__'), [], {})
+        s1 = state()
+        it.call(it.getattr(w, 'backstep'), [], {})
+        if it.call(it.getattr(w, 'peek'), [], {}) is not lines[0]:
+            problems.append('backstep() after reading one line does not hand that line back')
+        it.call(it.getattr(w, '__next__'), [], {})
+        it.call(it.getattr(w, '__next__'), [], {})
+        it.call(it.getattr(w, 'backstep'), [], {})
+        if it.call(it.getattr(w, 'peek'), [], {}) is not lines[1] or state() != s1:
+            problems.append('backstep() after reading two lines does not hand exactly the last one back')
+    except Raised as r:
+        problems.append('FileWrapper methods raise %s on a two-line wrapper' % r.exc.kind)
+    ok = not problems
+    rep.obligation(rule, ok, {'FileWrapper.backstep': 'hands back exactly one line and never moves before the first line',
+                              'cursor fields': sorted(cursor_fields)})
     if not ok:
-        rep.find(rule, 'block_tokenizer.FileWrapper.backstep', 'floor',
-                 'backstep() no longer guards its decrement with the floor test (_index never below -1)',
+        rep.find(rule, 'block_tokenizer.FileWrapper.backstep', 'floor', '; '.join(problems),
                  loc(model.unit_of(bs), bs.node))
 
 
 def rule_dispatch_restart(ctx, rep):
     model = ctx.model
     rule = 'R-DISPATCH-RESTART'
-    rep.rule(rule, 'the scan over token types is nested in the line loop and iterates the whole list each time')
+    rep.rule(rule, 'for every block the scan starts at the first token type, on the line at the cursor, and goes through the types in order')
     tb = model.func('block_tokenizer.tokenize_block')
     unit = model.unit_of(tb)
     rep.instance(rule)
-    params = tb.params()
-    ok = False
-    for w in walk_function(tb.node):
-        if isinstance(w, ast.While):
-            for f in ast.walk(w):
-                if isinstance(f, ast.For) and isinstance(f.iter, ast.Name) and f.iter.id == params[1]:
-                    # the parameter itself must not be rebound or consumed
-                    rebound = any(isinstance(x, ast.Name) and x.id == params[1] and isinstance(x.ctx, ast.Store)
-                                  for x in walk_function(tb.node))
-                    ok = not rebound
-    rep.obligation(rule, ok, {'tokenize_block': 'while line: for token_type in token_types: ...'})
-    if not ok:
-        rep.find(rule, 'block_tokenizer.tokenize_block', 'for-over-all-types-inside-while',
-                 'the dispatch loop does not rescan all token types (the parameter itself) for every block', loc(unit, tb.node))
+    runs = simulate_dispatch(ctx)
+    problems = {}
+    n_scans = 0
+    for log in runs:
+        expect = 0              # token type the next start() must be asked of
+        for e in log['events']:
+            if e[0] == 'start':
+                _, i, line_ok, res, _ = e
+                if i != expect:
+                    problems.setdefault('scan-order', 'start() of token type %d is consulted where type %d is due: the scan does '
+                                        'not begin at the first type for every block / does not go through the types in order' % (i, expect))
+                if expect == 0:
+                    n_scans += 1
+                if not line_ok:
+                    problems.setdefault('line-at-cursor', 'start() is not given the line at the cursor')
+                expect = i + 1 if not res else i
+            elif e[0] == 'read':
+                _, i, consumed, res, _ = e
+                expect = 0 if res else i + 1
+            elif e[0] == 'skip':
+                if expect != log['ntypes']:
+                    problems.setdefault('skip-early', 'a line is skipped although token type %d has not been consulted' % expect)
+                expect = 0
+        if log.get('raised'):
+            problems.setdefault('raises', 'the dispatch loop raises %s' % (log['raised'],))
+    if n_scans < 4:
+        raise AnalysisError('tokenize_block: simulated dispatch explored only %d scans' % n_scans)
+    rep.obligation(rule, not problems, {'tokenize_block': 'simulated with %d abstract token types over abstract lines' % 2,
+                                        'paths': len(runs), 'scans': n_scans, 'problems': sorted(problems)})
+    for k, msg in sorted(problems.items()):
+        rep.find(rule, 'block_tokenizer.tokenize_block', k, msg, loc(unit, tb.node))
+
+
+class MockType(AbstractValue):
+    """An abstract block token type: start() answers either way, read() consumes one line and returns a
+    result, or returns None leaving the cursor where it was. Every call is logged."""
+
+    def __init__(self, i, log):
+        self.i = i
+        self.log = log
+
+    def abs_getattr(self, interp, name):
+        return _AbsBound(self, name)
+
+    def abs_method(self, interp, name, args, kwargs):
+        ev = self.log['events']
+        ncalls = len(interp.trace_calls)
+        if name == 'start':
+            w = self.log['wrapper']()
+            at_cursor = w is not None and interp.call(interp.getattr(w, 'peek'), [], {}) is args[0]
+            r = interp.decide(('mock-start', self.i, len(ev)), fresh=True)
+            ev.append(('start', self.i, at_cursor, r, len(interp.trace_calls) if not r else ncalls))
+            if r:
+                ev[-1] = ('start', self.i, at_cursor, r, len(interp.trace_calls))
+            return r
+        if name == 'read':
+            r = interp.decide(('mock-read', self.i, len(ev)), fresh=True)
+            ev.append(('read', self.i, r, r, ncalls))
+            if r:
+                self.log['in_mock'] = True
+                try:
+                    interp.call(interp.getattr(args[0], '__next__'), [], {})
+                finally:
+                    self.log['in_mock'] = False
+                return ('result', self.i)
+            return None
+        return Unknown('mock.%s' % name)
+
+
+def simulate_dispatch(ctx, ntypes=2, nlines=2):
+    """All paths of tokenize_block(<abstract lines>, [MockType...]) with the real FileWrapper."""
+    if 'c05_dispatch' in ctx._cache:
+        return ctx._cache['c05_dispatch']
+    model = ctx.model
+    tb = model.func('block_tokenizer.tokenize_block')
+    fw = model.cls('block_tokenizer.FileWrapper')
+    nxt = fw.lookup('__next__')[1]
+    runs = []
+
+    def runner(oracle):
+        it = Interp(model, loop_bound=ntypes + 1, while_bound=nlines + 2)
+        it.reset_run(oracle)
+        it.trace_calls = []
+        log = {'events': [], 'ntypes': ntypes, 'calls': it.trace_calls}
+        holder = []
+        log['wrapper'] = lambda: holder[0] if holder else None
+        # find the wrapper: the first FileWrapper object constructed
+        real_construct = it.construct
+
+        def construct(cls, args, kwargs, *a, **k):
+            o = real_construct(cls, args, kwargs, *a, **k)
+            if cls is fw and not holder:
+                holder.append(o)
+            return o
+        it.construct = construct
+        # a line consumed by the loop itself (no type accepted it) is a 'skip'
+        def next_hook(interp, fi, args, kwargs):
+            if not log.get('in_mock'):
+                log['events'].append(('skip', None, None, None, len(interp.trace_calls)))
+            return MISSING
+        it.func_hooks[nxt.qualname] = next_hook
+        types = [MockType(i, log) for i in range(ntypes)]
+        lines = [AbsStr(label='line%d' % i) for i in range(nlines)]
+        try:
+            it.call_function(tb, [lines, types], {})
+        except Raised as r:
+            log['raised'] = r.exc.kind
+        except LoopTruncated:
+            log['raised'] = 'loop bound'
+        return log
+    for trace, log in enumerate_paths(runner, 4000):
+        log.pop('wrapper', None)
+        runs.append(log)
+    ctx._cache['c05_dispatch'] = runs
+    return runs
 
 
 def run(ctx):
